@@ -96,9 +96,10 @@ CLAIMED = {
  'C11': {
   'text': 'Partial. Verus proves on the real closure bodies (contracts generated per type from one table of the eight simple types): the simple-type and collection-of-simple-type item-definition evaluators and the '
           'typed input-variable evaluators return the value unchanged when it is of the declared kind (every element, for collections) and passes the allowed-values check, and null otherwise; '
-          'check_allowed_values returns the value iff the test accepts it; item_definition_type classifies every typeRef/components/isCollection combination or reports an error; output coercion is FeelType::coerced (C16).',
+          'check_allowed_values returns the value iff the test accepts it; item_definition_type classifies every typeRef/components/isCollection combination or reports an error; the component, collection-of-component, referenced and collection-of-referenced evaluators '
+          'check every component / element with the nested definition\'s own evaluator and null only what the property says (relative to A-item); output coercion FeelType::coerced wraps / unwraps singleton lists or yields null.',
   'design_ref': 'DESIGN.md section 5 (C11)',
-  'note': 'Trusted: Verus/Z3; evaluators/scopes opaque; closure lifting R4 ties each closure to the builder name / typeRef literal it sits under. Not decided: component/referenced item definitions, dispatch match arms, where coercion is applied.',
+  'note': 'Trusted: Verus/Z3; evaluators/scopes opaque; closure lifting R4 ties each closure to the builder name / typeRef literal it sits under. A-item: the nested item definition evaluators are uninterpreted. Not decided: dispatch match arms, where coercion is applied.',
  },
  'C18': {
   'text': 'Partial (definitions endpoints only). Verus proves on the real handler bodies that clear/add/replace/remove/deploy perform exactly the workspace operation the endpoint names on the model decoded from the request '
